@@ -161,6 +161,19 @@ fn reader_queries(r: &mut IdmServerProxyReadTransaction<'_>) -> Vec<String> {
     out.push(format!("second_again:{}", dn(r, person_uuid(0))));
     let _ = point("h.r.q9");
     out.push(format!("indexed_search_again:{}", idx(r)));
+    // an indexed search for the OLD display names, with the display name each returned entry
+    // actually carries: an index list from one state used on entries of the other shows up as a
+    // hit that does not match the filter
+    let _ = point("h.r.q10");
+    let old_hits = match r.qs_read.internal_search(Filter::new(f_or(vec![f_eq(Attribute::DisplayName, PartialValue::new_utf8s("target")), f_eq(Attribute::DisplayName, PartialValue::new_utf8s("reader"))]))) {
+        Ok(v) => {
+            let mut n: Vec<String> = v.iter().map(|e| format!("{}={}", e.get_ava_set(Attribute::Name).map(|vs| vs.to_proto_string_clone_iter().collect::<Vec<_>>().join(",")).unwrap_or_default(), e.get_ava_set(Attribute::DisplayName).map(|vs| vs.to_proto_string_clone_iter().collect::<Vec<_>>().join(",")).unwrap_or_default())).collect();
+            n.sort();
+            format!("{n:?}")
+        }
+        Err(e) => format!("err:{e:?}"),
+    };
+    out.push(format!("old_value_search:{old_hits}"));
     out
 }
 
@@ -370,9 +383,14 @@ pub fn run(args: &[String]) -> ! {
             let sc_json: Vec<serde_json::Value> = sc.iter().map(|(r, k)| if *k == usize::MAX { json!([r, null]) } else { json!([r, k]) }).collect();
             match parse(res) {
                 Ok((_, _, ans, trace)) => {
-                    let kind = if ans == old {
+                    // the last answer (the old-value search) is judged on its own below: it is the
+                    // probe for "an index list of one state applied to entries of the other"
+                    let probe = ans.len() - 1;
+                    let (ans9, old9, new9) = (&ans[..probe], &old[..probe], &new[..probe]);
+                    let probe_neither = ans[probe] != old[probe] && ans[probe] != new[probe];
+                    let kind = if ans9 == old9 && !probe_neither {
                         "all-before"
-                    } else if ans == new {
+                    } else if ans9 == new9 && !probe_neither {
                         "all-after"
                     } else {
                         "mixed"
@@ -381,8 +399,8 @@ pub fn run(args: &[String]) -> ! {
                     if kind == "mixed" {
                         nbad += 1;
                         let short = |a: &str| a.split(':').next().unwrap_or("").to_string();
-                        let from_old: Vec<String> = ans.iter().zip(old.iter()).filter(|(a, o)| a == o).map(|(a, _)| short(a)).collect();
-                        let from_new: Vec<String> = ans.iter().zip(new.iter()).filter(|(a, o)| a == o).map(|(a, _)| short(a)).collect();
+                        let from_old: Vec<String> = ans9.iter().zip(old9.iter()).filter(|(a, o)| a == o).map(|(a, _)| short(a)).collect();
+                        let from_new: Vec<String> = ans9.iter().zip(new9.iter()).filter(|(a, o)| a == o).map(|(a, _)| short(a)).collect();
                         let other: Vec<&String> = ans.iter().zip(old.iter().zip(new.iter())).filter(|(a, (o, n))| a != o && a != n).map(|(a, _)| a).collect();
                         // did the writer's publication window overlap the reader's snapshot acquisition?
                         let pos = |what: &str| trace.split(' ').position(|p| p == what);
@@ -393,7 +411,9 @@ pub fn run(args: &[String]) -> ! {
                         // the key names WHAT disagrees and in which window, not the schedule
                         let first_six: Vec<String> = from_new.iter().filter(|f| !f.ends_with("_again")).cloned().collect();
                         let key = format!("{}:after={}", if overlap { "commit_overlaps_snapshot_acquisition" } else { "commit_outside_snapshot_acquisition" }, first_six.join("+"));
+                        if ans9 != old9 && ans9 != new9 {
                         ctx.violation(&key, &format!("cache {temp:?}: one read transaction answered {from_old:?} from the state before the writer's transaction and {from_new:?} from the state after it{}; schedule: {trace}", if other.is_empty() { String::new() } else { format!(" (and {other:?} from neither)") }), json!({"cache": format!("{temp:?}"), "schedule": sc_json}));
+                        }
                         for (a, b) in [(0usize, 6usize), (1, 7), (2, 8)] {
                             let (x, y) = (ans[a].split_once(':').map(|p| p.1).unwrap_or(""), ans[b].split_once(':').map(|p| p.1).unwrap_or(""));
                             if x != y {
@@ -401,7 +421,8 @@ pub fn run(args: &[String]) -> ! {
                             }
                         }
                         if !other.is_empty() {
-                            ctx.violation(&format!("answer_from_neither_state:{}", other.iter().map(|o| short(o)).collect::<Vec<_>>().join("+")), &format!("cache {temp:?}: answers {other:?} belong neither to the state before nor to the state after; schedule: {trace}"), json!({"cache": format!("{temp:?}"), "schedule": sc_json}));
+                            // (the key carries the answer itself: WHICH entries came back matters)
+                            ctx.violation(&format!("answer_from_neither_state:{temp:?}:{}", other.iter().map(|o| o.replace(['"', '[', ']', ' '], "")).collect::<Vec<_>>().join("+")), &format!("cache {temp:?}: answers {other:?} belong neither to the state before nor to the state after; schedule: {trace}"), json!({"cache": format!("{temp:?}"), "schedule": sc_json}));
                         }
                     }
                     if evals % 211 == 7 {
